@@ -724,3 +724,12 @@ pub proof fn lemma_execs_add(a: Seq<u32>, b: Seq<u32>)
         assert(execs(a) + execs(b.drop_last()).push(Call::Exec(b.last())) == (execs(a) + execs(b.drop_last())).push(Call::Exec(b.last())));
     }
 }
+/// C19 at byte level: descriptor d matches name n iff n == d or n starts with d followed by '.'
+pub open spec fn desc_matches(d: Seq<u8>, n: Seq<u8>) -> bool {
+    d.is_prefix_of(n) && (d.len() == n.len() || n[d.len() as int] == 0x2Eu8)
+}
+
+pub open spec fn any_desc_matches(ds: Seq<String>, n: Seq<u8>) -> bool {
+    exists|i: int| 0 <= i < ds.len() && desc_matches(encode_utf8(#[trigger] ds[i]@), n)
+}
+
